@@ -553,6 +553,7 @@ func c18all(d *c18drv) {
 	c18run(d, vc18.StructPadMid())
 	c18run(d, vc18.StructPadNest())
 	c18run(d, vc18.StructPadNestOff())
+	c18run(d, vc18.StructPadDeep())
 	c18run(d, vc18.StructPadPtr())
 	c18run(d, vc18.ArrayPadLead())
 	c18run(d, vc18.StructPadWide())
